@@ -141,6 +141,9 @@ int libwifi_quick_add_tag(struct libwifi_tagged_parameters *tags, int tag_number
 int libwifi_check_tag(struct libwifi_tagged_parameters *tags, int tag_number) {
     int tag_count = 0;
     struct libwifi_tag_iterator it = {0};
+    if (tags->length == 0) {
+        return 0;
+    }
     if (libwifi_tag_iterator_init(&it, tags->parameters, tags->length) != 0) {
         return -EINVAL;
     }
